@@ -294,4 +294,11 @@ theorem diMask_inner (hi : Bool) (f : DIF) : (diMask hi f / 64 % 2 = 1) = (hi = 
   cases hi <;> cases symbolic <;> cases ns <;> cases locale <;> cases ltext <;> cases addInfo <;>
     cases innerStatus <;> simp [diMask]
 
+
+/-- clamping the saturated tick count is clamping the tick count: the model's `encDateTime` is the
+fixed `checked_ticks` for every chrono value -/
+theorem dtChecked_ticksSat (t : Int) : dtChecked (ticksSat t) = dtChecked t := by
+  unfold dtChecked ticksSat i64Max endTicks
+  split <;> split <;> (try split) <;> (try split) <;> omega
+
 end OpcuaVerif.Enc
